@@ -384,7 +384,23 @@ pub fn check_deck(c: &DeckCase, rec: &mut Rec) -> Result<(), String> {
             for _ in 0..(c.play_loops % 16) + 1 {
                 delay(&mut e, &mut mm, 251)?;
             }
+            // stopping freezes the level the input has at that moment: read while playing, after
+            // STOP, and again right after PLAY — if the two playing reads agree (no edge fell into the
+            // few dozen T-states of tape time between them) the stopped read must agree with them
+            let l1 = read(&mut e)?;
             e.stop_tape();
+            let l2 = read(&mut e)?;
+            e.play_tape();
+            let l3 = read(&mut e)?;
+            e.stop_tape();
+            rec.eval();
+            if l1 == l3 && l2 != l1 {
+                return Err(format!(
+                    "EAR reads {} while the deck plays, {} right after STOP and {} right after the next PLAY: stopping the deck changed the level of the input",
+                    l1, l2, l3
+                ));
+            }
+            rec.class(if l1 == 1 { "stopped-at-a-high-level" } else { "stopped-at-a-low-level" });
         }
         2 => e.play_tape(),
         _ => {}
@@ -474,7 +490,7 @@ pub fn replay(run: &mut Run, phase: &str, case: &serde_json::Value) -> Result<()
 }
 
 pub const LEVEL: &str = "exploration";
-pub const RULE: &str = "histories: case = tape of 1..2 short data blocks x history of 1..25 commands over {play, stop, rewind, advance n T-states} with n from 1 to 12 M so that commands land mid-pilot, mid-sync, mid-byte, in the pause and after the end, incl. stop-stop-play, play-play and rewind while playing/stopped; the pulse generator is driven through the hook re-export in steps of 1..16 T; the tape asset delivers everything at once or in short reads, and in a fifth of the cases the host has consumed the first bytes of the file before handing it over and starts with a rewind. Oracle: deck model — no EAR edge while stopped; the edge stream over *playing time* is cut at every rewind and after every complete pass, and each piece must be a prefix of the nominal waveform of the whole tape (clean pilot of the right length, sync, every bit pulse within nominal..nominal+32, pauses), so blocks appear once and in order and a stop/play pair neither loses nor repeats a pulse; a new pass after the end needs a play command. long-block-histories: the same oracle over tapes of 1..3 blocks of 0..420 bytes (lengths around the 128-byte multiples of the read buffer of the player, data and header flags), histories of 1..17 commands with advances that land inside the data bytes, steps of 7/13/16 T. deck-and-other-host-calls (emulator level): with the deck never started, stopped after playing, or playing, the host calls one of save_snapshot(SNA), load_screen, execute_poke, set_fast_load, set_sound, set_ay_enabled; 40 EAR samples over the next 120000 T-states must show a frozen level unless the deck is playing (then the pilot tone must be seen). non-trivial = history with a stop->play resume, a double stop, a play after end-of-tape or a rewind after playing started, and at least one edge observed; distinct = hash of the case";
+pub const RULE: &str = "histories: case = tape of 1..2 short data blocks x history of 1..25 commands over {play, stop, rewind, advance n T-states} with n from 1 to 12 M so that commands land mid-pilot, mid-sync, mid-byte, in the pause and after the end, incl. stop-stop-play, play-play and rewind while playing/stopped; the pulse generator is driven through the hook re-export in steps of 1..16 T; the tape asset delivers everything at once or in short reads, and in a fifth of the cases the host has consumed the first bytes of the file before handing it over and starts with a rewind. Oracle: deck model — no EAR edge while stopped; the edge stream over *playing time* is cut at every rewind and after every complete pass, and each piece must be a prefix of the nominal waveform of the whole tape (clean pilot of the right length, sync, every bit pulse within nominal..nominal+32, pauses), so blocks appear once and in order and a stop/play pair neither loses nor repeats a pulse; a new pass after the end needs a play command. long-block-histories: the same oracle over tapes of 1..3 blocks of 0..420 bytes (lengths around the 128-byte multiples of the read buffer of the player, data and header flags), histories of 1..17 commands with advances that land inside the data bytes, steps of 7/13/16 T. deck-and-other-host-calls (emulator level): with the deck never started, stopped after playing, or playing, the host calls one of save_snapshot(SNA), load_screen, execute_poke, set_fast_load, set_sound, set_ay_enabled; the level read right after STOP must be the level read just before it (bracketed by a read after the next PLAY), and 40 EAR samples over the next 120000 T-states must show a frozen level unless the deck is playing (then the pilot tone must be seen). non-trivial = history with a stop->play resume, a double stop, a play after end-of-tape or a rewind after playing started, and at least one edge observed; distinct = hash of the case";
 pub const ASSUMPTIONS: &[&str] = &[
     "a change of the idle EAR level caused by rewind itself is not counted as a waveform edge",
     "first phase: tapes are short (pilot lengths dominate cost) with data-flag blocks only; long blocks and header-flag blocks are in the second phase with fewer cases",
